@@ -140,6 +140,13 @@ HllArray<A>* HllArray<A>::newHll(const void* bytes, size_t len, const A& allocat
     const uint8_t* auxDataStart = data + offset;
     auxHashMap = AuxHashMap<A>::deserialize(auxDataStart, len - offset, lgK, auxCount, auxLgIntArrSize, comapctFlag, allocator);
     aux_ptr = aux_hash_map_ptr(auxHashMap, auxHashMap->make_deleter());
+  } else if (tgtHllType == HLL_4) { // no exception table, so no slot may refer to it
+    const uint8_t* hllBytes = data + hll_constants::HLL_BYTE_ARR_START;
+    for (uint32_t i = 0; i < arrayBytes; ++i) {
+      if ((hllBytes[i] & hll_constants::loNibbleMask) == hll_constants::AUX_TOKEN || (hllBytes[i] >> 4) == hll_constants::AUX_TOKEN) {
+        throw std::invalid_argument("HLL_4 array refers to an aux map, but aux count is zero");
+      }
+    }
   }
 
   HllArray<A>* sketch = HllSketchImplFactory<A>::newHll(lgK, tgtHllType, startFullSizeFlag, allocator);
@@ -217,6 +224,12 @@ HllArray<A>* HllArray<A>::newHll(std::istream& is, const A& allocator) {
     uint8_t auxLgIntArrSize = listHeader[4];
     AuxHashMap<A>* auxHashMap = AuxHashMap<A>::deserialize(is, lgK, auxCount, auxLgIntArrSize, comapctFlag, allocator);
     ((Hll4Array<A>*)sketch)->putAuxHashMap(auxHashMap);
+  } else if (tgtHllType == HLL_4) { // no exception table, so no slot may refer to it
+    for (const uint8_t byte: sketch->hllByteArr_) {
+      if ((byte & hll_constants::loNibbleMask) == hll_constants::AUX_TOKEN || (byte >> 4) == hll_constants::AUX_TOKEN) {
+        throw std::invalid_argument("HLL_4 array refers to an aux map, but aux count is zero");
+      }
+    }
   }
 
   if (!is.good())
